@@ -21,6 +21,11 @@ DEC = "tlexport.decryptor.Decryptor"
 AEADM = "cryptography.hazmat.primitives.ciphers.aead."
 TV = "tlexport.tlsversion.TlsVersion"
 CLASSES = [("TLS12", "AESGCM"), ("TLS12", "AESCCM"), ("TLS12", "ChaCha20Poly1305"), ("TLS13", "AESGCM"), ("TLS13", "ChaCha20Poly1305")]
+LEGACY = [("TLS12", "CBC"), ("TLS11", "CBC"), ("TLS10", "CBC"), ("SSL30", "CBC"), ("TLS12", "RC4"), ("TLS10", "RC4")]
+ALG = "cryptography.hazmat.primitives.ciphers.algorithms."
+CIPH = "cryptography.hazmat.primitives.ciphers."
+FUNCS_LEGACY = [SE + ".get_tls_records", SE + ".handle_tls_record", SE + ".handle_tls_application_record", DEC + ".decrypt", DEC + ".decrypt_tls12_block_cipher",
+                DEC + ".decrypt_last_block_iv_cbc", DEC + ".decrypt_generic_stream_cipher"]
 FUNCS = [SE + ".get_tls_records", SE + ".handle_tls_record", SE + ".handle_tls_application_record", SE + ".handle_tls_13_application_record",
          DEC + ".decrypt", DEC + ".decrypt_tls12_aead", DEC + ".decrypt_tls12_chacha20", DEC + ".decrypt_tls13_aead", DEC + ".decrypt_tls13_stream_cipher",
          "tlexport.decryptor.byte_xor"]
@@ -180,3 +185,195 @@ def h_phase(c, version, aead, srv):
 
 
 h_phase.must_cover = ["returned", "record_exported"]
+
+
+@harness(["C01", "C08", "C13"], "compose.application_phase_cbc_rc4", functions=FUNCS_LEGACY, cases=[(v, k, s) for v, k in LEGACY for s in (True, False)], timeout=30000)
+def h_phase_legacy(c, version, kind, srv):
+    """the same induction for the non-AEAD classes.  The primitives are modelled by what they are: CBC-Decrypt(key, iv, ct) and the RC4
+    keystream are FUNCTIONS - they return the protected plaintext structure exactly when key, IV / stream position and ciphertext are the
+    sender's, and something arbitrary otherwise (they never fail: TLExport does not verify MACs).
+      TLS 1.1 / 1.2 CBC (RFC 4346 / 5246 6.2.3.2): explicit IV = first block of the fragment - no state carried between records;
+      SSL 3.0 / TLS 1.0 CBC (RFC 2246 6.2.3.2): IV = last ciphertext block of the PREVIOUS record of that direction - the invariant is
+          'the stored residue is the last block of the previous record (or the state at the start of the phase)';
+      RC4: one keystream per direction - the invariant is 'the cipher context has consumed exactly the bytes of the records before'.
+    Plaintext structure: content || MAC || padding (each padding byte = padding length) for CBC, content || MAC for RC4; exported = content."""
+    if c.native:
+        return
+    from pyvc.api import SpecList
+    from pyvc.core import bslice, Unsupported
+    from contracts.common import full_session
+    cbc = kind == "CBC"
+    chained = cbc and version in ("TLS10", "SSL30")
+    block = 16
+    maclen = c.choice("mac_length", [20, 32])
+    M = c.int("n_records", 0, None)
+    key, okey = c.bytes("write_key", length=16), c.bytes("other_write_key", length=16)
+    c.assume(bnot(eq(key, okey)))
+    ver = const({"TLS12": b"\x03\x03", "TLS11": b"\x03\x02", "TLS10": b"\x03\x01", "SSL30": b"\x03\x00"}[version])
+    dlen, pad, poff, coff = c.uf("data_len"), c.uf("padding_len"), c.uf("plaintext_offset"), c.uf("ciphertext_offset")
+    spos = c.uf("keystream_position")
+    PT, CT, MACS = c.bytes("all_plaintexts"), c.bytes("all_ciphertexts"), c.bytes("all_macs")
+    R0 = c.bytes("residue_at_start", length=block)
+    c.assume(spos(0) >= 0)
+
+    def sealed_len(q):
+        return dlen(q) + maclen + (pad(q) + 1 if cbc else 0)
+
+    def ct_len(q):                       # what travels in the fragment after an explicit IV
+        return sealed_len(q)
+
+    def rec_facts(q):
+        c.assume(implies(band(0 <= q, q < M), band(0 <= dlen(q), dlen(q) <= 16384, 0 <= pad(q), pad(q) <= 255, poff(q) >= 0, poff(q) + dlen(q) <= len_(PT),
+                                                   coff(q) >= 0, coff(q) + block + sealed_len(q) <= len_(CT), (q + 1) * maclen <= len_(MACS),
+                                                   spos(q + 1) == spos(q) + sealed_len(q), spos(q) >= 0)))
+        if cbc:
+            c.assume(implies(band(0 <= q, q < M), sealed_len(q) % block == 0))
+
+    def data(q):
+        return bslice(PT, poff(q), poff(q) + dlen(q))
+
+    def ct(q):
+        return bslice(CT, coff(q) + block, coff(q) + block + ct_len(q))
+
+    def explicit_iv(q):
+        return bslice(CT, coff(q), coff(q) + block)
+
+    def sealed(q):
+        mac = bslice(MACS, q * maclen, (q + 1) * maclen)
+        if cbc:
+            return cat(data(q), mac, c.fill(pad(q), pad(q) + 1))
+        return cat(data(q), mac)
+
+    def fragment(q):
+        if cbc and not chained:
+            return cat(explicit_iv(q), ct(q))
+        return ct(q)
+
+    def last_block(q):
+        return bslice(CT, coff(q) + block + ct_len(q) - block, coff(q) + block + ct_len(q))
+
+    def header(q):
+        return cat(c.bytes_of([0x17]), ver, c.encode_be("record_length", len_(fragment(q)), 2))
+    cur = {"q": None, "pos": None}
+    used = []
+
+    # ---- library models: CBC decryption and the RC4 keystream as functions of (key, iv / position, ciphertext)
+    def cipher_ctor(algorithm, mode=None, backend=None):
+        def ops(m, a, k):
+            if m == "decryptor":
+                return ctx
+            raise Unsupported("Cipher.%s" % m)
+
+        def ctx_ops(m, a, k):
+            q = cur["q"]
+            if m == "finalize":
+                return const(b"")
+            if m != "update" or q is None:
+                raise Unsupported("cipher context.%s" % m)
+            used.append((algorithm, mode, a[0]))
+            iv_ok = eq(c.get(mode, "iv"), explicit_iv(q) if not chained else (R0 if False else c.get(mode, "iv"))) if mode is not None else True
+            want_iv = None
+            if mode is not None:
+                want_iv = explicit_iv(q) if not chained else None
+            okk = band(eq(c.get(algorithm, "key"), key), eq(a[0], ct(q)))
+            if mode is not None and not chained:
+                okk = band(okk, eq(c.get(mode, "iv"), explicit_iv(q)))
+            if mode is not None and chained:
+                okk = band(okk, bor(band(q == 0, eq(c.get(mode, "iv"), R0)), band(q > 0, eq(c.get(mode, "iv"), last_block(q - 1)))))
+            if c.truth_fork(okk):
+                return sealed(q)
+            return c.bytes_fresh("garbage", 0, None)
+        ctx = c.recorder("cipher_context", handler=ctx_ops)
+        return c.recorder("Cipher", handler=ops)
+    if cbc:
+        c.lib_model(CIPH + "Cipher", cipher_ctor)
+    # RC4: ONE persistent context per direction, created when the keys were installed
+    def rc4_ops(m, a, k):
+        q = cur["q"]
+        if m != "update" or q is None:
+            raise Unsupported("RC4 context.%s" % m)
+        used.append(("rc4", None, a[0]))
+        here = cur["pos"]
+        cur["pos"] = here + len_(a[0])
+        if c.truth_fork(band(here == spos(q), eq(a[0], ct(q)))):
+            return sealed(q)
+        return c.bytes_fresh("garbage", 0, None)
+    rc4_ctx = c.recorder("rc4_context", handler=rc4_ops)
+    other_ctx = c.recorder("rc4_context_of_the_other_direction", handler=lambda m, a, k: c.bytes_fresh("other", 0, None))
+
+    def record(q):
+        fr = fragment(q)
+        return c.obj("tlexport.tlsrecord.TlsRecord", binary=fr, record_type=0x17, record_version=ver, record_length=c.encode_be("record_length", len_(fr), 2),
+                     raw=cat(header(q), fr), metadata=[c.opaque("carrying_packet")], isserver=srv, __q=q)
+    other_residue = c.bytes("other_direction_residue", length=block)
+    d = c.obj(DEC, bulk_alg=c.external(ALG + ("AES" if cbc else "ARC4")), bulk_mode=None, mac_alg=None, tls_version=c.enum(TV, version), key_length=16, mac_length=maclen,
+              tag_length=16, block_length=128, compression_method=0, encrypt_then_mac=False, server_key=key if srv else okey, client_key=okey if srv else key,
+              server_iv=c.bytes("siv", length=block), client_iv=c.bytes("civ", length=block), server_seq=0, client_seq=0,
+              last_block_server=R0 if srv else other_residue, last_block_client=other_residue if srv else R0,
+              server_cipher=rc4_ctx if srv else other_ctx, client_cipher=other_ctx if srv else rc4_ctx)
+    r0 = c.method(d, "get_cipher_type")
+    assert r0.exc is None, r0
+    own_recs = "server_tls_records" if srv else "client_tls_records"
+    sip, cip = c.bytes("server_ip", length=4), c.bytes("client_ip", length=4)
+    c.assume(bnot(eq(sip, cip)))
+    pkt = c.obj("tlexport.packet.Packet", ip_src=sip if srv else cip, ip_dst=cip if srv else sip, sport=443 if srv else 50000, dport=50000 if srv else 443)
+    s = full_session(c, server_ip=sip, client_ip=cip, server_port=443, client_port=50000, packet_buffer=[pkt], decryptor=d, can_decrypt=True, client_hello_seen=True,
+                     tls_version=c.enum(TV, version), server_cipher_change=True, client_cipher_change=True, exp_meta=c.bool("metadata_export"), application_traffic=[],
+                     server_tls_records=[], client_tls_records=[], server_packet_buffer=[], client_packet_buffer=[])
+
+    def entry_match(x, q):
+        return isinstance(x, tuple) and len(x) == 3 and hasattr(x[1], "attrs") and band(eq(x[0], data(q)), eq(x[1].attrs["__q"], q)) and x[2] is srv
+
+    def traffic_list(cnt):
+        return SpecList("application_traffic", cnt, lambda q: (data(q), record(q), srv), entry_match)
+
+    def traffic_is(T, cnt):
+        if isinstance(T, SpecList):
+            return band(T.equals_spec(cnt), len(T.lead) == 0)
+        if isinstance(T, list):
+            return band(eq(len(T), cnt), *[entry_match(x, j) for j, x in enumerate(T)])
+        return False
+    c.summary_override(SE + ".extract_%s_buf" % ("server" if srv else "client"), lambda ctx, slf: c.set(slf, own_recs, SpecList("released", M, record, lambda x, q: False)))
+    own_res = "last_block_server" if srv else "last_block_client"
+    DECLARED = {"s": {"application_traffic"}, "d": {own_res} if chained else set()}
+    snap = {}
+
+    def inv(e):
+        r = traffic_is(c.get(s, "application_traffic"), e.it)
+        if chained:
+            lb = c.get(d, own_res)
+            r = band(r, bor(band(e.it == 0, eq(lb, R0)), band(e.it > 0, eq(lb, last_block(e.it - 1)))))
+        if not cbc:
+            r = band(r, cur["pos"] == spos(e.it))
+        return r
+    cur["pos"] = spos(0)
+
+    def ghost(phase, e):
+        if phase == "havoc":
+            cur["q"] = e.it
+            rec_facts(e.it)
+            rec_facts(e.it - 1)
+            del used[:]
+            c.set(s, "application_traffic", traffic_list(c.fresh_int("n_exported", 0, None)))
+            if chained:
+                c.set(d, own_res, c.bytes_fresh("stored_residue", block, block))
+            if not cbc:
+                cur["pos"] = c.fresh_int("keystream_position_of_the_context", 0, None)
+            snap["s"] = {k: v for k, v in s.attrs.items() if k not in DECLARED["s"]}
+            snap["d"] = {k: v for k, v in d.attrs.items() if k not in DECLARED["d"]}
+        elif phase == "step":
+            for tag_, obj in (("s", s), ("d", d)):
+                same = set(obj.attrs) - DECLARED[tag_] == set(snap[tag_]) and all(obj.attrs[k] is v or c.same_object(obj.attrs[k], v) for k, v in snap[tag_].items())
+                c.ensure("frame.body_modifies_only_the_declared_cipher_state_and_the_export_list[%s]" % ("session" if tag_ == "s" else "decryptor"), same)
+            c.ensure("one_primitive_call_per_record", len(used) == 1)
+            c.cover("record_exported")
+    c.loop(SE + ".get_tls_records", "for record in self.%s" % own_recs, invariant=inv, havoc={"e": lambda cur_: None}, ghost_step=ghost)
+    out = c.method(s, "get_tls_records")
+    c.ensure("no_raise", out.exc is None, kind="raises")
+    if out.exc is not None:
+        return
+    c.ensure("all_records_exported_exactly_in_order", traffic_is(c.get(s, "application_traffic"), M))
+    c.cover("returned")
+
+
+h_phase_legacy.must_cover = ["returned", "record_exported"]
